@@ -572,6 +572,19 @@ class Gen:
             return W([Seg("lit", "pre"), self.seg_sub(depth)])
         if k < 0.85:
             op = r.pick([":-", ":=", ":+", ":?", "-", "+", "#", "%", "/", "//"])
+            j = r.random()
+            if j < 0.2:
+                # a process substitution alone in the argument: no `$(` and no backtick anywhere in the raw text
+                inner = self.raw_prog(depth + 1) if self.raw_safe else self.prog(depth + 1, small=True)
+                fire = r.pick([(":-", "x"), ("-", "x"), (":+", "HOME"), ("+", "HOME")])
+                return W([Seg("param", name=fire[1], op=fire[0], segs=[Seg("lit", r.pick(["", "d"])), Seg("procsub", prog=inner, direction=r.pick(["<", ">"]))])])
+            if j < 0.45:
+                # single-quote characters around the substitution: literal text when the word is unquoted (bash does not run it,
+                # Dippy's scan still counts it), ordinary characters inside a double-quoted word (bash runs it)
+                fire = r.pick([(":-", "x"), ("-", "x"), (":+", "HOME"), ("+", "HOME"), (":=", "x")])
+                arg = [Seg("lit", r.pick(["'", "it's ", "a '"])), self.seg_sub_nq(depth), Seg("lit", r.pick(["'", " isn't", "' b"]))]
+                pw = Seg("param", name=fire[1], op=fire[0], segs=arg)
+                return W([Seg("dq", segs=[Seg("lit", r.pick(["", "p "])), pw])]) if r.chance(0.7) else W([pw])
             arg = [Seg("lit", r.pick(["", "d", "a/"])), self.seg_sub_nq(depth)]
             if op in ("/", "//"):
                 arg = [Seg("lit", "a/")] + arg
